@@ -26,6 +26,9 @@ func (l *Layout) pick(n int) int {
 	if l.Choose != nil {
 		return l.Choose(n)
 	}
+	if l.R == nil {
+		return 0 // canonical layout without a PRNG
+	}
 	return l.R.Intn(n)
 }
 
